@@ -1287,11 +1287,15 @@ func ipamRandomScenario(k int, env string, skip map[string]bool) []vt.M {
 		}
 		return m
 	}
-	fam := []string{"random", "lifecycle", "resandbox", "shrink", "faulty"}[k%5]
+	fams := []string{"random", "lifecycle", "resandbox", "shrink", "faulty", "rollback", "rdma", "gcstale"}
+	fam := fams[k%len(fams)]
 	if skip[fam] {
 		fam = "random"
 	}
 	n := 10 + rng.Intn(10)
+	if fam == "rollback" || fam == "rdma" {
+		n = rng.Intn(4)
+	}
 	for i := 0; i < n; i++ {
 		p := 1 + rng.Intn(4)
 		switch x := rng.Intn(24); {
@@ -1314,7 +1318,9 @@ func ipamRandomScenario(k int, env string, skip map[string]bool) []vt.M {
 		case x < 19 && env == "all":
 			sc = append(sc, vt.M{"a": []string{"drift_remove", "drift_add"}[rng.Intn(2)], "k": rng.Intn(3), "j": rng.Intn(3), "fam": 4 + 2*rng.Intn(2)})
 		case x < 20:
-			sc = append(sc, vt.M{"a": "restart"})
+			if rng.Intn(3) == 0 {
+				sc = append(sc, vt.M{"a": "restart"})
+			}
 		case x < 21:
 			sc = append(sc, vt.M{"a": "pod_exit", "p": p})
 		default:
@@ -1331,6 +1337,15 @@ func ipamRandomScenario(k int, env string, skip map[string]bool) []vt.M {
 			vt.M{"a": "pod_delete", "p": 1, "forced": rng.Intn(2) == 0}, rec(), vt.M{"a": "pod_delete", "p": 2}, vt.M{"a": "flush", "fail": true}, rec(),
 			vt.M{"a": "pod_create", "p": 4}, rec(), vt.M{"a": "flush"}, rec(), vt.M{"a": "cni_add", "p": 4}, vt.M{"a": "cni_del", "p": 1}, vt.M{"a": "flush"},
 			vt.M{"a": "sync_deleted"}, rec(), vt.M{"a": "daemon_gc"}, rec())
+	case "gcstale":
+		// the five-minute job has written "initial" stamps for bound pods; then pods leave (one forced, its sandbox stays up
+		// for a while), the agent's gc looks at the stale entries, teardown reports arrive on top of the "initial" stamps
+		for _, p := range []int{1, 2, 3} {
+			sc = append(sc, vt.M{"a": "pod_create", "p": p})
+		}
+		sc = append(sc, rec(), rec(), vt.M{"a": "cni_add", "p": 1}, vt.M{"a": "cni_add", "p": 2}, vt.M{"a": "sync_deleted"},
+			vt.M{"a": "pod_delete", "p": 1, "forced": true}, vt.M{"a": "daemon_gc"}, rec(), vt.M{"a": "pod_delete", "p": 2}, vt.M{"a": "flush"},
+			vt.M{"a": "pod_delete", "p": 3}, vt.M{"a": "daemon_gc"}, rec(), vt.M{"a": "pod_create", "p": 4}, rec(), vt.M{"a": "cni_del", "p": 1}, vt.M{"a": "flush"}, rec())
 	case "resandbox":
 		// kubelet replaces a pod's sandbox (same pod UID): DEL, report, ADD again; later the pod is deleted
 		sc = append(sc, vt.M{"a": "pod_create", "p": 1}, vt.M{"a": "pod_create", "p": 2}, rec(), rec(), vt.M{"a": "cni_add", "p": 1}, vt.M{"a": "cni_add", "p": 2},
@@ -1343,8 +1358,11 @@ func ipamRandomScenario(k int, env string, skip map[string]bool) []vt.M {
 		sc = append(sc, rec(), vt.M{"a": "pod_delete", "p": 1, "forced": rng.Intn(3) != 0}, vt.M{"a": "pod_create", "p": 3}, rec(), vt.M{"a": "cni_add", "p": 3}, rec(),
 			vt.M{"a": "cni_del", "p": 1}, vt.M{"a": "flush"}, rec())
 	case "shrink":
-		// the pool grows, everybody leaves with teardown reported, the pool is trimmed; then demand returns (with a fault)
+		// the pool grows, everybody leaves with teardown reported, the pool is trimmed; demand returns while the trim is under way
 		cf["max"] = cf["min"]
+		if rng.Intn(2) == 0 {
+			cf["min"], cf["max"] = 0, 0
+		}
 		for _, p := range []int{1, 2, 3, 4} {
 			sc = append(sc, vt.M{"a": "pod_create", "p": p})
 		}
@@ -1352,8 +1370,12 @@ func ipamRandomScenario(k int, env string, skip map[string]bool) []vt.M {
 		for _, p := range []int{1, 2, 3, 4} {
 			sc = append(sc, vt.M{"a": "pod_delete", "p": p})
 		}
-		sc = append(sc, vt.M{"a": "flush"}, rec(), rec(), rec(), vt.M{"a": "pod_create", "p": 1 + rng.Intn(4)},
-			vt.M{"a": "plan", "outcomes": []any{ipamFaults[rng.Intn(len(ipamFaults))]}}, rec(), rec())
+		sc = append(sc, vt.M{"a": "flush"}, vt.M{"a": "reconcile"})
+		if rng.Intn(2) == 0 {
+			sc = append(sc, vt.M{"a": "reconcile"})
+		}
+		sc = append(sc, vt.M{"a": "pod_create", "p": 1 + rng.Intn(2)}, vt.M{"a": "pod_create", "p": 3 + rng.Intn(2)},
+			vt.M{"a": "plan", "outcomes": []any{ipamFaults[rng.Intn(len(ipamFaults))]}}, vt.M{"a": "reconcile"}, rec())
 	case "faulty":
 		// demand with faults at successive cloud calls and a failed status update right after a cloud change
 		for _, p := range []int{1, 2, 3} {
@@ -1365,6 +1387,28 @@ func ipamRandomScenario(k int, env string, skip map[string]bool) []vt.M {
 		}
 		sc = append(sc, vt.M{"a": "plan", "outcomes": outs}, vt.M{"a": "reconcile", "write": []string{"", "conflict", "error"}[rng.Intn(3)]}, rec(),
 			vt.M{"a": "plan", "outcomes": []any{ipamFaults[rng.Intn(len(ipamFaults))]}}, rec(), rec())
+	case "rollback":
+		// a new interface is needed; its creation succeeds, the attach (or the wait) fails, sometimes the roll-back delete fails too
+		cf["pre"], cf["init"] = 0, "empty"
+		for _, p := range []int{1, 2} {
+			sc = append(sc, vt.M{"a": "pod_create", "p": p})
+		}
+		outs := []any{"ok", []string{"fb", "fa", "fb:enilimit", "fb:throttle"}[rng.Intn(4)]}
+		if rng.Intn(2) == 0 {
+			outs = append(outs, "fb")
+		}
+		sc = append(sc, vt.M{"a": "plan", "outcomes": outs}, vt.M{"a": "reconcile", "write": []string{"", "", "conflict"}[rng.Intn(3)]}, rec(), rec())
+	case "rdma":
+		// RDMA and ordinary pods compete for addresses while both kinds of interface have idle ones
+		cf["rdma"], cf["sec"], cf["trunk"] = 1, 1, false
+		if rng.Intn(2) == 0 {
+			cf["pre"], cf["preIPs"], cf["init"] = 1, 2, "empty"
+			sc = append(sc, vt.M{"a": "pod_create", "p": 1, "rdma": true}, vt.M{"a": "reconcile"}, vt.M{"a": "pod_create", "p": 2}, rec(), rec())
+		} else {
+			cf["pre"], cf["init"], cf["min"], cf["max"] = 0, "empty", 0, 3
+			sc = append(sc, vt.M{"a": "pod_create", "p": 1, "rdma": true}, vt.M{"a": "pod_create", "p": 2, "rdma": true}, vt.M{"a": "reconcile"}, vt.M{"a": "reconcile"},
+				vt.M{"a": "pod_delete", "p": 1}, vt.M{"a": "flush"}, vt.M{"a": "reconcile"}, vt.M{"a": "pod_create", "p": 3}, vt.M{"a": "pod_create", "p": 4}, vt.M{"a": "reconcile"}, rec())
+		}
 	}
 	return sc
 }
